@@ -270,7 +270,7 @@ def judge_wrapped(rep, abi, s, lay, meta, res, stats, cls):
 
 def judge_probe(rep, abi, probe, stats):
     """DiplomatBuf.slice / strs of the bundled runtime for every view kind, allocated at the very end of the wasm memory"""
-    if len(probe) < 13:
+    if len(probe) < 15:
         raise MachineryError("runtime probe incomplete: %s" % json.dumps(probe)[:300])
     for r in probe:
         stats["probe"] = stats.get("probe", 0) + 1
@@ -278,6 +278,11 @@ def judge_probe(rep, abi, probe, stats):
             rep.violation("C08|runtime|slice-at-end-of-memory-throws|%s" % r["ty"], {"probe": r},
                           "DiplomatBuf.%s of %d elements (%d bytes each) placed 64 bytes before the end of the wasm memory throws: %s" % (
                               "strs" if r["ty"].startswith("strs") else "slice(%s)" % r["ty"], r["n"], r["elem"], r["error"]))
+            continue
+        if r["ty"].startswith("strs-grow"):
+            if r.get("pairs") != r.get("want_pairs"):
+                rep.violation("C08|runtime|strs-pairs-lost-when-memory-grows|%s" % r["ty"].split(":")[1], {"probe": r},
+                              "DiplomatBuf.strs with an allocation that grows the wasm memory: the (ptr, len) array holds %s, the strings were allocated as %s" % (r.get("pairs"), r.get("want_pairs")))
             continue
         want = {"size": r["n"] * r["elem"], "align": 4 if r["ty"].startswith("strs") else r["elem"]}
         al = r.get("alloc") or {}
